@@ -106,6 +106,12 @@ func runRaceQuery(t *testing.T, c *choice.Stream, r *Result, opt RunOpt) {
 		}
 		srv := simnet.NewServer(cf.ServerRev, script)
 		conn := e.W.NewConn(srv)
+		var conn2 *simnet.Conn
+		if fault == "foreign_close" && c.Bool("redial", 1, 2) {
+			srv2 := simnet.NewServer(cf.ServerRev, cf.HandshakeSteps())
+			srv2.Auto = autoResponder(cf)
+			conn2 = e.W.NewConn(srv2)
+		}
 		cutK := c.Draw("cut.k", 300)
 		dl := time.Duration(c.Pick("deadline.ms", 0, 1, 50, 900)) * time.Millisecond
 		at := c.Draw("at.step", 700)
@@ -160,6 +166,15 @@ func runRaceQuery(t *testing.T, c *choice.Stream, r *Result, opt RunOpt) {
 					<-trigger
 					e.Sim.Yield("closer.wake")
 					_ = cl.Close()
+					// ... and the application dials again at once, while the closed
+					// client's Do may still be unwinding: whatever the two share inside
+					// the library (pools, caches) is touched from both sides
+					if conn2 != nil {
+						if cl2, err := ch.Connect(context.Background(), conn2, cf.Options()); err == nil {
+							_ = cl2.Ping(context.Background())
+							_ = cl2.Close()
+						}
+					}
 				})
 			}
 			derr := cl.Do(qctx, sc.query)
@@ -220,7 +235,11 @@ func parseRaces(stderr string) []raceReport {
 					if p := strings.LastIndexByte(f, '('); p > 0 {
 						f = f[:p]
 					}
-					if strings.HasPrefix(f, "runtime.") {
+					// the innermost frame that belongs to the library or to the harness: an
+					// access inside the runtime (append/copy report through slicecopy,
+					// growslice) or inside a standard-library or third-party type (bufio,
+					// sync.Pool, zap...) is the doing of whoever called it
+					if !strings.HasPrefix(f, "github.com/ClickHouse/ch-go") && !strings.HasPrefix(f, "chgosim/") {
 						continue
 					}
 					tops = append(tops, f)
